@@ -82,6 +82,18 @@ func c11Eval(c *fw.Ctx, k c11Case) (sig, desc string, nontrivial bool) {
 	case "file":
 		dst = contentByCode(l, k.Now, c08DstChoices[:2], k.Dst)
 		(&BFile{L: l, Rings: dst, Base: basePicks(k.Dst, len(l.Archs))}).Write(dpath)
+	case "almost-equal":
+		// the destination holds, in every slot, a value one ulp away from the sum: sum-copy must still store the sum exactly
+		all, _ := ExpSum(l, files, -1, 0, k.Now, k.Now)
+		for i := range l.Archs {
+			for j, v := range all[i].Vals {
+				if !math.IsNaN(v) && v != 0 {
+					t := all[i].Shape.From + int64(j)*all[i].Shape.Step
+					dst[i][uint32(t/int64(l.Archs[i].Step))%l.Archs[i].N] = wsp.Slot{T: uint32(t), V: math.Nextafter(v, math.Inf(-1))}
+				}
+			}
+		}
+		(&BFile{L: l, Rings: dst}).Write(dpath)
 	case "coarser-equal":
 		// the destination already equals the sum in every archive but the finest
 		all, _ := ExpSum(l, files, -1, 0, k.Now, k.Now)
@@ -181,11 +193,14 @@ func c11Eval(c *fw.Ctx, k c11Case) (sig, desc string, nontrivial bool) {
 	a := l.Archs[ps.a]
 	cls := uint32(t/int64(a.Step)) % a.N
 	old := have[ps.a].Vals[ps.j]
-	if math.IsNaN(old) {
+	switch {
+	case math.IsNaN(old):
 		got[ps.a][cls] = wsp.Slot{T: uint32(t), V: 77}
-	} else if k.Perturb%2 == 0 {
+	case k.Perturb%3 == 0:
 		got[ps.a][cls] = wsp.Slot{T: uint32(t), V: old + 0.5}
-	} else {
+	case k.Perturb%3 == 1 && old != 0:
+		got[ps.a][cls] = wsp.Slot{T: uint32(t), V: math.Nextafter(old, math.Inf(1))} // a deviation in the last bit is a deviation
+	default:
 		delete(got[ps.a], cls)
 	}
 	(&BFile{L: l, Rings: got}).Write(dpath)
@@ -248,15 +263,15 @@ func runC11(c *fw.Ctx) {
 				if c.Expired() {
 					return
 				}
-				kinds := []string{"missing", "fresh", "coarser-equal"}
-				for di := -3; di < len(dsts); di++ {
+				kinds := []string{"almost-equal", "missing", "fresh", "coarser-equal"}
+				for di := -4; di < len(dsts); di++ {
 					if di >= 0 && !c.Thorough() && (di+idx)%4 != 0 {
 						continue
 					}
 					kind := "file"
 					var d []int
 					if di < 0 {
-						kind = kinds[di+3]
+						kind = kinds[di+4]
 					} else {
 						d = dsts[di]
 					}
